@@ -2,7 +2,7 @@ MUTANTS = [
     {"id": "C10-text-unclamped", "prop": "C10", "expect": "CLAMP-CONTRACT",
      "edits": [("src/view/text.rs", "        *layout = Layout::new().with_size(ct.clamp(size));\n        Ok(())\n    }\n}\n\nimpl View for String", "        *layout = Layout::new().with_size(size);\n        Ok(())\n    }\n}\n\nimpl View for String")]},
     {"id": "C10-container-shrink-unclamped", "prop": "C10", "expect": "CLAMP-CONTRACT",
-     "edits": [("src/view/container.rs", "                .add(self.margins.top)\n                .add(self.margins.bottom)\n                .clamp(ct.min.height, ct.max.height)", "                .add(self.margins.top)\n                .add(self.margins.bottom)")]},
+     "edits": [("src/view/container.rs", "                .saturating_add(self.margins.top)\n                .saturating_add(self.margins.bottom)\n                .clamp(ct.min.height, ct.max.height)", "                .saturating_add(self.margins.top)\n                .saturating_add(self.margins.bottom)")]},
     {"id": "C10-fill-ignores-constraint", "prop": "C10", "expect": "CLAMP-CONTRACT",
      "edits": [("src/view/mod.rs", "        *layout = Layout::new().with_size(ct.max());\n        Ok(())\n    }\n}\n\nimpl View for SurfaceView", "        *layout = Layout::new().with_size(Size::new(ct.max().height + 1, ct.max().width));\n        Ok(())\n    }\n}\n\nimpl View for SurfaceView")]},
     {"id": "C10-orig-space-around-div-zero", "prop": "C10", "expect": "TOTAL",
@@ -52,4 +52,13 @@ MUTANTS += [
 MUTANTS += [
     {"id": "C10-align-offset-abs-min", "prop": "C10", "expect": "TOTAL",
      "edits": [("src/view/container.rs", "(space - size).saturating_sub(offset.unsigned_abs() as usize)", "(space - size).saturating_sub(offset.abs() as usize)")]},
+]
+
+MUTANTS += [
+    {"id": "C10-orig-container-margin-plain-add", "prop": "C10", "expect": "TOTAL",
+     "edits": [("src/view/container.rs", "                .align(child_size.height, child_size_max.height)\n                .saturating_add(self.margins.top),", "                .align(child_size.height, child_size_max.height)\n                + self.margins.top,")]},
+    {"id": "C10-orig-scrollbar-thumb-end", "prop": "C10", "expect": "TOTAL",
+     "edits": [("src/view/scrollbar.rs", "index >= offset.saturating_add(size)", "index >= offset + size")]},
+    {"id": "C10-orig-cell-layout-glyph-width", "prop": "C10", "expect": "TOTAL",
+     "edits": [("src/render.rs", "        if cursor.col.saturating_add(cell_size.width) <= max_width {", "        if cursor.col + cell_size.width <= max_width {")]},
 ]
